@@ -155,6 +155,7 @@ def run(rep, tier):
     rep.assume('same trace as the interpreter per chart, per-document tables (C05) and the executable-content functions are not decided here')
     rep.rule('R04.11', 'sibling agreement: every set test (operands + polarity) and every set update (operation, destination, source) of the emitted C step function occurs equally often in the emitted Promela step (same comparison as C06 R06.2 / R06.4, seen from the C side)')
     rep.rule('R04.10', 'history default: the emitted step function takes a history state\'s default transition exactly when nothing is remembered (like the engines, C01 R01.16)')
+    rep.rule('R04.12', 'questions about a whole bit set use the whole set: the emitted step function does not read a state- or transition-sized bit array through a literal byte index (outside the BIT_* macros); "is the root the only ancestor" is asked of the parent index or of all bytes')
     rep.rule('R04.9', 'set-valued completion: the emitted loop that adds the ancestors of a compound\'s deep completion visits every completion member (an initial attribute may name states in several regions), like the interpreter')
     rep.rule('R04.8', 'the tables the emitted machine is driven by are defined like the interpreter\'s: conflict relation with all terms of the definition (same rule as C05 R05.4), history completion like both engines (C05 R05.6), transition domain / LCCA quantifier shape (C05 R05.5)')
     fb = facts.FactBase(TUS)
@@ -192,6 +193,7 @@ def run(rep, tier):
         step = cg.fn('uscxml_step')
         dt = DimTyper(cg, step)
         nsub = 0
+        n_byte_reads = 0
         for n in step.walk():
             if n['k'] != 'ArraySubscriptExpr':
                 continue
@@ -206,10 +208,17 @@ def run(rep, tier):
                 raise AnalysisBroken('emitted step function: index expression of %s at generated line %d has no recognised domain' % (ad, n['loc'][1]))
             ok = idd == want or idd == 'const'
             names = [s['ref']['name'] for s in sub(arr) if 'ref' in s][:2]
+            # a bit array read one byte at a time with a literal byte index answers a question about (at most) 8 states only
+            if ad in ('SB', 'TB') and strip(idx) is not None and strip(idx)['k'] == 'IntegerLiteral' and alt == alts[0]:
+                rep.fail('R04.12', 'byte read|%s[%s]@L%d' % ('.'.join(reversed(names)), strip(idx).get('int'), n['loc'][1]), 'generated uscxml_step line %d' % n['loc'][1],
+                         'the bit array %s is read as the single byte [%s]: a test such as `ancestors[0] == 0x01` ("only the root is an ancestor") ignores every state from index 8 on; a nested <final> at index >= 8 is taken for a top-level final' % ('.'.join(reversed(names)), strip(idx).get('int')))
+                n_byte_reads += 1
             if alt == alts[0] or not ok:
                 rep.check(ok, 'R04.2', 'subscript|%s[%s]@L%d' % ('.'.join(reversed(names)), idd, n['loc'][1]), 'generated uscxml_step line %d' % n['loc'][1],
                           'array of domain %s indexed with an expression of domain %s' % (ad, idd))
         rep.minimum('R04.2', nsub, 100, 'array subscripts in the emitted step function')
+        if alt == alts[0] and not n_byte_reads:
+            rep.ok('R04.12', 'emitted step', 'no bit array is read through a literal byte index (%d subscripts)' % nsub)
         ncall = 0
         for n in step.walk():
             q = n.get('callee', {}).get('q', '')
